@@ -1,6 +1,7 @@
 // native replay for unit mp: evaluates the obligations of the harness on the REAL xenium::marked_ptr / utils::rotate
 // for the configuration and inputs cbmc found.   in_mb=MarkBits in_mu=MaxUpperMarkBits in_p in_m in_p2 in_m2 in_w in_w2 in_c in_v
 // exit 0: everything holds, 1: a violation was reproduced (printed), 2: configuration not instantiated here
+// The constructor's precondition is the class' own assert: it is evaluated by running the real constructor in a forked child (abort = rejected).
 // All 33 x 34 (MarkBits 0..32, MaxUpperMarkBits 0..33) instantiations are compiled; per instantiation only thin wrappers
 // around the real members are generated, the checks themselves are written once over a table of function pointers.
 #include <xenium/marked_ptr.hpp>
